@@ -320,10 +320,10 @@ pub fn units() -> Vec<Unit> {
             Const("MAX_FCNT_GAP"),
             Const("ADR_ACK_LIMIT"),
             Const("ADR_ACK_DELAY"),
-            CustomMulti(crate::statics::handle_rx_oversized),
+            // (builder N: `handle_rx_oversized` and `fcnt_up_exhausted` — single comparisons of `handle_rx` /
+            // `rx2_complete` — are superseded by the whole-method units Gen.SessionRx / Gen.SessionFn)
             CustomMulti(crate::statics::rx2_complete_backoff_due),
             CustomMulti(crate::statics::prepare_buffer_adr_ack_req),
-            CustomMulti(crate::statics::fcnt_up_exhausted),
         ],
     },
     // ---- builder L (tie A for whole stateful methods, state-passing translation)
